@@ -228,7 +228,7 @@ def check_behaviours(chk, behs):
 
 # ---- sparsity patterns ---------------------------------------------------------------------------
 def pattern_cases():
-    name, mod, cfg = tlc.mc("LDASPattern", dict(N=3, Variant="faithful"), invariants=["DiagSound", "DiagComplete", "Emit"])
+    name, mod, cfg = tlc.mc("LDASPattern", dict(N=3, Variant="faithful", Depth=1), invariants=["DiagSound", "DiagComplete", "Emit"])
     return name, mod, cfg
 
 
@@ -269,8 +269,54 @@ def replay_pattern(case, sparse, cplx=False):
     return "ok"
 
 
+def pattern_matrix(pat, r, cplx):
+    A = (r.random(pat.shape) + 0.5) * pat * np.where(r.random(pat.shape) < 0.5, -1, 1)
+    A = A + np.diag(np.diag(A)) * 3
+    if cplx:
+        A = A * np.exp(1j * (0.3 + 1.2 * r.random(pat.shape)))
+    if abs(np.linalg.det(A)) < 1e-3:
+        A = A + np.diag(np.diag(pat) * 1.0) * 2
+    return A
+
+
+def replay_pattern_seq(case, storage, cplx):
+    """one wrapper object updated with a sequence of matrices whose value patterns differ. storage: "dense", "sparse"
+    (only non-zeros stored) or "fullsparse" (every entry stored, zeros explicitly: the stored structure never changes)"""
+    import warnings
+    steps = case["steps"]
+    r = np.random.default_rng(97 + sum(int(np.packbits(np.array(s["pat"], dtype=bool).ravel()).sum()) * (k + 1) for k, s in enumerate(steps)))
+    w, inner = make_wrapper("none", storage != "dense")
+    n = len(steps[0]["pat"])
+    rr, cc = np.divmod(np.arange(n * n), n)
+    with warnings.catch_warnings():
+        warnings.simplefilter("ignore")
+        for k, stp in enumerate(steps):
+            pat = np.array(stp["pat"], dtype=bool)
+            A = pattern_matrix(pat, r, cplx)
+            if abs(np.linalg.det(A)) < 1e-6:
+                return None
+            Am = A if storage == "dense" else (sps.csc_matrix(A) if storage == "sparse" else sps.csc_matrix((A.ravel(), (rr, cc)), shape=(n, n)))
+            w.update(Am)
+            got = sorted(int(i) + 1 for i in w.diagonal_idx)
+            if got != sorted(stp["diag"]):
+                return "diagidx", "update #%d with pattern %s: divided-out dofs %s, specification %s (storage %s)" % (k + 1, stp["pat"], got, sorted(stp["diag"]), storage)
+            for trans in ("N", "T", "H"):
+                b = r.random(n) + 0.5 + (1j * (r.random(n) - 0.5) if cplx else 0)
+                x = w.solve(b, trans=trans)
+                res = np.linalg.norm(op_matrix(A, trans) @ x - b) / np.linalg.norm(b)
+                if not res < 1e-6:
+                    return "residual", "update #%d with pattern %s trans=%s: relative residual %.3g (storage %s)" % (k + 1, stp["pat"], trans, res, storage)
+    return "ok"
+
+
 def run(chk, replay_case=None, replay=None):
     replay_case = replay
+    if replay_case is not None and "storage" in replay_case:
+        res = replay_pattern_seq(replay_case, replay_case["storage"], replay_case.get("complex", False))
+        chk.case(replay_case)
+        if res not in ("ok", None):
+            chk.violation("C06/pattern-seq/" + res[0], res[1], replay_case)
+        return
     if replay_case is not None:
         if "pat" in replay_case:
             res = replay_pattern(replay_case, replay_case.get("sparse", False), replay_case.get("complex", False))
@@ -311,10 +357,28 @@ def run(chk, replay_case=None, replay=None):
                 chk.case(dict(case, sparse=sparse, complex=cplx), nontrivial=res is not None)
                 if res not in ("ok", None):
                     chk.violation("C06/pattern/" + res[0], res[1], dict(case, sparse=sparse, complex=cplx))
-    name, mod, cfg = tlc.mc("LDASPattern", dict(N=3, Variant="column_only"), invariants=["DiagSound"])
+    name, mod, cfg = tlc.mc("LDASPattern", dict(N=3, Variant="column_only", Depth=1), invariants=["DiagSound"])
     r = tlc.run(name, cfg, extra_modules={name: mod}, expect_violation=True)
     if r.violated is None:
         raise tlc.TLCError("negative variant column_only of LDASPattern.tla was not refuted")
+    # one wrapper updated with a sequence of patterns (incl. matrices stored with a fixed structure and explicit zeros)
+    name, mod, cfg = tlc.mc("LDASPattern", dict(N=3, Variant="faithful", Depth=2), invariants=["DiagSound", "DiagComplete"])
+    chk.tlc_must_hold(name, cfg, label="LDASPattern 3x3 pairs", extra_modules={name: mod})
+    name, mod, cfg = tlc.mc("LDASPattern", dict(N=3, Variant="stale_partition", Depth=2), invariants=["DiagSound", "DiagComplete"])
+    r = tlc.run(name, cfg, extra_modules={name: mod}, expect_violation=True)
+    if r.violated is None:
+        raise tlc.TLCError("negative variant stale_partition of LDASPattern.tla was not refuted")
+    name, mod, cfg = tlc.mc("LDASPattern", dict(N=3, Variant="faithful", Depth=3), invariants=["EmitSeq"])
+    r = chk.tlc(name, cfg, label="LDASPattern sequences", extra_modules={name: mod}, workers=1, simulate=2000 if thorough else 150, depth=6, seed=chk.seed + 23)
+    seqs = [v[0] for tag, v in r.printed if tag == "SEQ"]
+    for k, case in enumerate(seqs):
+        for storage in ("dense", "sparse", "fullsparse"):
+            cplx = bool((k + len(storage)) % 2)
+            res = replay_pattern_seq(case, storage, cplx)
+            key = dict(case, storage=storage, complex=cplx)
+            chk.case(key, nontrivial=res is not None)
+            if res not in ("ok", None):
+                chk.violation("C06/pattern-seq/" + res[0], res[1], key)
     # behaviours
     jobs = []
     with cf.ThreadPoolExecutor(max_workers=14) as ex:
